@@ -40,7 +40,7 @@ SPECS = [
          pick="listcomp_elt", inputs=[("n_eval_episodes", "Z"), ("i", "Z"), ("n_envs", "Z")]),
     dict(name="ev_under_quota", file=_EV, qual="evaluate_policy", start=r"^if episode_count", end=None, kind="test",
          inputs=[("count", "Z"), ("target", "Z")], subst={"episode_counts[i]": "count", "episode_count_targets[i]": "target"}),
-    dict(name="ev_acc", file=_EV, qual="evaluate_policy", start=r"^current_rewards [-+*/]?= ", end=r"^current_lengths [-+*/]?= ",
+    dict(name="ev_acc", file=_EV, qual="evaluate_policy", start=r"^current_rewards [-+*/]= ", end=r"^current_lengths [-+*/]= ",
          inputs=[("cur_r", "Z"), ("cur_l", "Z"), ("reward", "Z")],
          subst={"current_rewards": "cur_r", "current_lengths": "cur_l", "rewards": "reward"},
          outputs=[("cur_r", "Z"), ("cur_l", "Z")]),
